@@ -51,6 +51,37 @@ def gen_case(rng, spec):
         g = GG.gen_big_grammar(rng, recursion=bigR != "Q")
         return {"g": {k: g[k] for k in ("S", "V", "rules")}, "R": bigR, "maxlen": 1,
                 "xseed": rng.randrange(1 << 30), "rename": rng.choice([None, None, "int", "str", "tuple", "int0"]), "scale": "big-grammar"}
+    r = rng.random()
+    if r < 0.04:
+        from fractions import Fraction as Fr
+
+        W = [Fr(1, 2), Fr(1, 4), Fr(3, 8), Fr(1, 8)]
+        if r < 0.02:
+            # scale: one body of 7-10 symbols whose leading symbols are nullable (the null-weight enumeration works on
+            # subsets of body positions)
+            n = rng.randint(7, 10)
+            body = [rng.choice(["A", "A", "B", "a", "b"]) for _ in range(n)]
+            body[: rng.randint(2, 4)] = ["A", "B", "A", "A"][: rng.randint(2, 4)]
+            rules = [[rng.choice(W), "S", body], [rng.choice(W), "A", ["a"]], [rng.choice(W), "A", []], [rng.choice(W), "B", ["b"]],
+                     [rng.choice(W), "B", []], [rng.choice(W), "B", ["A"]], [rng.choice(W), "S", ["a", "b"]]]
+            g = {"S": "S", "V": ["a", "b"], "rules": rules}
+            scale = "wide-nullable-body"
+        else:
+            # scale: the unary rules form one strongly connected component of 9-14 nonterminals with unequal weights
+            n = rng.randint(9, 14)
+            Ts = ["a", "b", "c"]
+            rules = []
+            for i in range(n):
+                rules.append([rng.choice(W), f"X{i}", [f"X{(i + 1) % n}"]])
+                rules.append([rng.choice(W), f"X{i}", [Ts[i % 3]] + ([f"X{rng.randrange(n)}"] if rng.random() < 0.2 else [])])
+            if rng.random() < 0.5:
+                rules.append([Fr(1, 8), f"X{rng.randrange(n)}", [f"X{rng.randrange(n)}"]])  # a chord
+            rng.shuffle(rules)
+            g = {"S": "X0", "V": Ts, "rules": GG._scale([[int(w * 8), h, b] for w, h, b in rules], {f"X{i}" for i in range(n)})}
+            scale = "unary-ring"
+        return {"g": g, "R": rng.choice(["Float", "Float", "Real", "Q", "Boolean", "MaxTimes"]) if scale != "unary-ring" else rng.choice(["Float", "Float", "Real", "MaxTimes", "Boolean"]),
+                "maxlen": 3 if scale == "wide-nullable-body" else 2, "xseed": rng.randrange(1 << 30),
+                "rename": rng.choice([None, None, "int", "str"]), "scale": scale}
     tmpl = None
     if rng.random() < 0.35:
         tmpl = rng.choice(["useless", "dead_start", "empty_language", "unary_via_nullable", "nullable_cycle", "unary_cycle2"])
@@ -327,7 +358,10 @@ def run_case(case, ctx, mode):
             h, w = lib.want_value(R, w2), want[x]
             good = lib.same(R, h, w, exact=ex2, tol=1e-8)
             if good and O.isz(w) and not O2.isz(w2) and not signed:
-                good = False
+                # (a float reference on the OUTPUT rules may leave rounding residue, e.g. -1.1e-16, for a non-member:
+                # linear solves over 10-16 nonterminals; that is the reference's rounding, not weight in the language)
+                if not (isinstance(w2, float) and abs(w2) <= 1e-12):
+                    good = False
             # support: a string with non-zero weight keeps a non-zero weight (however small) under transformations
             # that do not go through a truncated fixed point (the nullary ones do: null weights < 1e-12 may vanish)
             if good and not O.isz(w) and O2.isz(w2) and not signed and base_name in SUPPORT_PRESERVING and bool(getattr(O.alg, "exact", False)):
